@@ -49,7 +49,7 @@ theorem esc_inj (a b r s : Bytes) (h : esc a ++ r = esc b ++ s) : a = b ∧ r = 
   cases h1; exact ⟨rfl, rfl⟩
 
 def enc (k x m n : Bytes) : Option Bytes :=
-  if m = [] ∨ k = [] ∨ n.length ≠ nonceLen then none else some (esc k ++ (esc x ++ (esc n ++ m)))
+  if m = [] ∨ k = [] ∨ n.length ≠ nonceLen ∨ maxMsgLen ≤ m.length then none else some (esc k ++ (esc x ++ (esc n ++ m)))
 
 def dec (k x ct : Bytes) : Option Bytes :=
   match unesc ct with
@@ -60,7 +60,7 @@ def dec (k x ct : Bytes) : Option Bytes :=
     | some (x', r2) =>
       match unesc r2 with
       | none => none
-      | some (n, m) => if k' = k ∧ x' = x ∧ ¬ (m = [] ∨ k = [] ∨ n.length ≠ nonceLen) then some m else none
+      | some (n, m) => if k' = k ∧ x' = x ∧ ¬ (m = [] ∨ k = [] ∨ n.length ≠ nonceLen ∨ maxMsgLen ≤ m.length) then some m else none
 
 def validPriv (a : Bytes) : Bool := a.head? == some 0
 
@@ -79,7 +79,7 @@ theorem pubOf_inj (a b : Bytes) (ha : validPriv a = true) (hb : validPriv b = tr
   rw [ea, eb, h]
 
 def wrap (a p m n : Bytes) : Option Bytes :=
-  if m = [] ∨ n.length ≠ nonceLen ∨ validPriv a = false then none else some (esc a ++ (esc p ++ (esc n ++ m)))
+  if m = [] ∨ n.length ≠ nonceLen ∨ maxMsgLen ≤ m.length ∨ validPriv a = false then none else some (esc a ++ (esc p ++ (esc n ++ m)))
 
 def unwrap (b q ct : Bytes) : Option Bytes :=
   match unesc ct with
@@ -91,7 +91,7 @@ def unwrap (b q ct : Bytes) : Option Bytes :=
       match unesc r2 with
       | none => none
       | some (n, m) =>
-        if validPriv a = true ∧ validPriv b = true ∧ p = pubOf b ∧ q = pubOf a ∧ m ≠ [] ∧ n.length = nonceLen then some m else none
+        if validPriv a = true ∧ validPriv b = true ∧ p = pubOf b ∧ q = pubOf a ∧ m ≠ [] ∧ n.length = nonceLen ∧ m.length < maxMsgLen then some m else none
 
 def ops : CryptoOps where
   enc := enc
@@ -100,6 +100,7 @@ def ops : CryptoOps where
   unwrap := unwrap
   pubOf := pubOf
   validPriv := validPriv
+  privOfSeed := fun d => 0 :: d
   hmac := fun k m => esc k ++ m
   sha256 := id
 
@@ -134,7 +135,7 @@ theorem sealLaws : SealLaws ops where
             cases h
             obtain ⟨rfl, rfl, hc3⟩ := hc
             refine ⟨n, ?_, ?_⟩
-            · simp at hc3; exact hc3.2.2
+            · simp at hc3; exact hc3.2.2.1
             · simp only [ops, enc, if_neg hc3]
               rw [esc_of_unesc _ _ _ h1, esc_of_unesc _ _ _ h2, esc_of_unesc _ _ _ h3]
           · cases h
@@ -190,13 +191,13 @@ theorem msgLaws : MsgLaws ops where
           split at h
           · next hc =>
             cases h
-            obtain ⟨hva, _, hp, hq, hm, hn⟩ := hc
+            obtain ⟨hva, _, hp, hq, hm, hn, hlt⟩ := hc
             have : a = a' := pubOf_inj a a' ha hva hq
             subst this
             refine ⟨n, hn, ?_⟩
             have ha' : validPriv a = true := ha
             simp only [ops, wrap]
-            rw [if_neg (by simp [hm, hn, ha'])]
+            rw [if_neg (by simp [hm, hn, ha']; omega)]
             rw [esc_of_unesc _ _ _ h1, esc_of_unesc _ _ _ h2, esc_of_unesc _ _ _ h3, hp]
           · cases h
   wrap_none := by
@@ -204,6 +205,9 @@ theorem msgLaws : MsgLaws ops where
     have ha' : validPriv a = true := ha
     simp only [ops, wrap]
     split <;> simp_all
+
+theorem keygenLaws : KeygenLaws ops where
+  valid_seed := by intro d _; simp [ops, validPriv]
 
 theorem hashInj : HashInj ops where
   hmac_inj := by
